@@ -176,6 +176,29 @@ CHECKS = {
         "one instant accepted both ways; embedded/reference values may be shared "
         "by copy(); names fold by str.lower() only",
         "DESIGN.md 4-C05", "cimeq"),
+    "C04": (
+        "TLA+ requirement machine (server saw exactly name / namespace / "
+        "non-None parameters; same result or status code; equal repositories) "
+        "and TLC design model of the marshalling over all call shapes; a real "
+        "WBEMConnection over a CIM-XML facade vs direct calls on an equal "
+        "repository, validated by TLC",
+        "TLC checks for every call shape (operation x namespace argument x "
+        "namespace in the object name x None/value pattern of three optional "
+        "parameters x default namespace) that the code-shaped marshalling "
+        "makes the server see exactly the caller's operation, namespace with "
+        "default applied and non-None parameters (two wrong variants must "
+        "fail); all these shapes and seeded operation sequences (instance, "
+        "class, qualifier, association, query, open/pull/close, InvokeMethod; "
+        "three default namespaces) run through a real WBEMConnection whose "
+        "transport decodes the request with pywbem's server-side parsers, "
+        "executes it on a mock repository and encodes the reply, and directly "
+        "on an equal repository; TLC judges what the server saw, result "
+        "objects / status codes and repository equality after every step.",
+        "the facade is harness code built from pywbem's own parser and "
+        "encoder classes; faults shared by both paths are invisible; objects "
+        "are supplied with explicit flavor attributes (None-vs-default is "
+        "C01's subject) and compared with DSP0201 defaults applied",
+        "DESIGN.md 4-C04", "wireeq"),
     "C10": (
         "TLA+ reference keyed map with set-valued status codes (RepoCore); "
         "code-shaped validation-order + dict/heap machine refinement in TLC; "
